@@ -251,7 +251,17 @@ fn oracle_cg(case: &Case) -> Outcome {
         o.label("S5-skipped:valgrind-not-available");
         return o;
     }
-    let run = |nm: &str, k: usize| instructions(nm, k).map_err(|e| Outcome::harness(format!("HARNESS: callgrind run of {} n={}: {}", nm, k, e)));
+    // an instrumentation failure (valgrind present but unusable here) is not a verdict about
+    // the library: the pair is skipped and counted as skipped in the evidence
+    let run = |nm: &str, k: usize| {
+        instructions(nm, k).map_err(|e| {
+            S5_SKIPPED.fetch_add(1, Ordering::Relaxed);
+            eprintln!("note: S5/S6 pair skipped, callgrind run of {} n={} failed: {}", nm, k, e);
+            let mut s = Outcome::pass();
+            s.label("S5-skipped:callgrind-run-failed");
+            s
+        })
+    };
     let big = match run(name, n) {
         Ok(x) => x,
         Err(h) => return h,
@@ -849,7 +859,7 @@ pub fn run(ctx: &Ctx) {
             "family pairs measured with callgrind": S5_PAIRS.load(Ordering::Relaxed),
             "max instructions(n)/instructions(n/4)": S5_MAX_RATIO_X100.load(Ordering::Relaxed) as f64 / 100.0,
             "max instructions(large cache)/instructions(small cache)": S6_MAX_RATIO_X100.load(Ordering::Relaxed) as f64 / 100.0,
-            "pairs skipped because valgrind is not available": S5_SKIPPED.load(Ordering::Relaxed),
+            "pairs skipped because valgrind is not available or a run failed": S5_SKIPPED.load(Ordering::Relaxed),
         }),
     );
 }
